@@ -372,7 +372,13 @@ def boostNovelExtension (ms : List FileEnt) (boostOffset : Nat) (ratioNum ratioD
       | none => ms
       | some x => top ++ x :: cands.eraseIdx i
 
+/-- the arguments of the call in `SortFiles`: `boostNovelExtension(ms, 2, 0.9)` -/
+def boostOffset : Nat := 2
+def minScoreRatioNum : Int := 9
+def minScoreRatioDen : Int := 10
+
 /-- `SortFiles` -/
-def sortFiles (ms : List FileEnt) : List FileEnt := boostNovelExtension (sortDesc (·.score) ms) 2 9 10
+def sortFiles (ms : List FileEnt) : List FileEnt :=
+  boostNovelExtension (sortDesc (·.score) ms) boostOffset minScoreRatioNum minScoreRatioDen
 
 end ZoektModel.C29
